@@ -69,13 +69,19 @@ def registration(cls):
     fn = _fn(cls, "_add_event")
     if [a.arg for a in fn.args.args] != ["self", "event_hook"]:
         raise Unsupported("signature of _add_event")
-    mine = [s for s in _nodoc(fn.body) if "events_dict" in ast.unparse(s) or
+    # harmless rewrites of the tail (a named suffix, if/else instead of a conditional expression, table lookups bound to locals)
+    body0 = _nodoc(fn.body)
+    keep = {n.slice.id for q in body0 for n in ast.walk(q) if isinstance(n, ast.Subscript) and ast.unparse(n.value) == "self.events_dict"
+            and isinstance(n.slice, ast.Name)}
+    keep |= {q.iter.id for q in body0 if isinstance(q, ast.For) and isinstance(q.iter, ast.Name)}
+    body0 = pynorm.ref_aliases(pynorm.aliases(pynorm.merge_branches(body0), keep=tuple(keep)))
+    mine = [s for s in body0 if "events_dict" in ast.unparse(s) or
             (isinstance(s, (ast.Assign, ast.AnnAssign)) and isinstance(getattr(s, "target", None) or s.targets[0], ast.Name)
              and any(k in ast.unparse(s) for k in ("hook_type", "event_hook.time")))]
     if len(mine) != 3:
         raise Unsupported(f"{len(mine)} statements of _add_event concern the table where 3 are expected")
     s_n, s_t, s_f = mine
-    if _nodoc(fn.body)[-3:] != mine:
+    if body0[-3:] != mine:
         raise Unsupported("the table statements are not the last three of _add_event")
     N = _tname(s_n)
     if ast.unparse(s_n.value) != "event_hook.hook_type + ('_before' if event_hook.is_before else '_after')":
